@@ -278,12 +278,15 @@ def retain_results(check, wp, programs, seed, n, k=12):
 NOT_SCALABLE = {"heredoc/empty", "nowdoc/empty", "stmt+halt"}     # D6 (known finding) / must be last
 
 
+_ENDS_HTML = re.compile(r"(</b>\n|\?>(\r\n|\n|\r)?)\Z")
+
+
 def join_programs(srcs):
-    """one source from many rendered programs ("<?php " + body each); a program that ends in inline HTML leaves the
-    scanner in HTML mode, so the next one keeps its open tag"""
+    """one source from many rendered programs ("<?php " + body each); a program that ends in inline HTML or in a close tag
+    leaves the scanner in HTML mode, so the next one keeps its open tag"""
     acc = []
     for s in srcs:
-        acc.append(s if (acc and acc[-1].endswith("</b>\n")) or not acc else "\n" + s[len("<?php "):])
+        acc.append(s if not acc or _ENDS_HTML.search(acc[-1]) else "\n" + s[len("<?php "):])
     return "".join(acc)
 
 
